@@ -21,13 +21,11 @@ type clockModel map[string]int // "archetype|selfcanon" -> count
 type builder struct {
 	rng    *rand.Rand
 	varied bool    // false: plain constructors in the given order
-	cross  float64 // probability of building a tuple as a function 1..n or vice versa
 	wrap   float64 // probability of causal wrapping of a (sub)value (only effective with vector clocks enabled)
 	gobp   float64 // probability of passing a (sub)value through gob while building
 	// observations
-	usedCross bool
-	wrapped   int
-	recipes   map[string]int
+	wrapped int
+	recipes map[string]int
 }
 
 type buildError struct{ err error }
@@ -198,16 +196,6 @@ func (b *builder) buildTuple(es []tla.Value) tla.Value {
 		return tla.MakeTuple(es...)
 	}
 	rng := b.rng
-	if b.cross > 0 && rng.Float64() < b.cross {
-		b.usedCross = true
-		b.note("tuple:as-function-1..n")
-		fs := make([]tla.RecordField, len(es))
-		for i, e := range es {
-			fs[i] = tla.RecordField{Key: tla.MakeNumber(int32(i + 1)), Value: e}
-		}
-		rng.Shuffle(len(fs), func(i, j int) { fs[i], fs[j] = fs[j], fs[i] })
-		return tla.MakeRecord(fs)
-	}
 	n := len(es)
 	switch rng.Intn(6) {
 	case 0:
@@ -254,17 +242,6 @@ func (b *builder) buildFn(n *node, ks, vs []tla.Value) tla.Value {
 		return tla.MakeRecord(fs)
 	}
 	rng := b.rng
-	if b.cross > 0 && rng.Float64() < b.cross {
-		if seq, ok := n.seqValues(); ok {
-			b.usedCross = true
-			b.note("function-1..n:as-tuple")
-			out := make([]tla.Value, len(seq))
-			for j := 0; j < n.pairs(); j++ {
-				out[n.key(j).I-1] = vs[j]
-			}
-			return tla.MakeTuple(out...)
-		}
-	}
 	rng.Shuffle(len(fs), func(i, j int) { fs[i], fs[j] = fs[j], fs[i] })
 	switch rng.Intn(6) {
 	case 0:
@@ -293,7 +270,7 @@ func (b *builder) buildFn(n *node, ks, vs []tla.Value) tla.Value {
 		}
 		lookup := map[string]tla.Value{}
 		for i := 0; i < n.pairs(); i++ {
-			lookup[n.key(i).canon()] = vs[i]
+			lookup[n.key(i).kcanon()] = vs[i]
 		}
 		return tla.MakeFunction([]tla.Value{tla.MakeSet(dom...)}, func(args []tla.Value) tla.Value {
 			c, _ := canonOf(args[0])
@@ -373,7 +350,7 @@ func kindOf(v tla.Value) string {
 	return "default"
 }
 
-// canonOf reads v through its accessors. problems lists structural anomalies (the same element twice in a set,
+// canonOf reads v through its accessors into the kind-distinguishing canonical form (node.kcanon). problems lists structural anomalies (the same element twice in a set,
 // the same key twice in a function, Len() disagreeing with iteration).
 type dupProblem struct {
 	msg  string
@@ -420,7 +397,7 @@ func canonOf(v tla.Value) (canon string, problems []dupProblem) {
 			problems = append(problems, ps...)
 			es = append(es, c)
 		}
-		return canonTuple(es), problems
+		return kcanonTuple(es), problems
 	case v.IsFunction():
 		it := v.AsFunction().Iterator()
 		var ps []kv
